@@ -13,11 +13,21 @@ from fractions import Fraction
 import numpy as np
 
 from . import universe as U
-from .core import MachineryError
+from .core import MachineryError, guarded
 from .project import ids, kind_of, NVERT, find_scale, int_coords, fx
 
 
 logging.getLogger('skfem').setLevel(logging.ERROR)      # "Replace ElementLinePp(1) by ..." advice is not an observation
+
+
+def lib(fn, seconds):
+    """core.guarded for library calls of the C04 / C07 drivers: exceptions are observations (returned as err), but an
+    expired per-call alarm is NOT -- neither property says anything about running time, the calls take milliseconds and
+    the alarms are 100x-1000x above that, so an expiry means an overloaded machine: exit 2, never a VIOLATION."""
+    r, err = guarded(fn, seconds)
+    if err == 'Timeout':
+        raise MachineryError(f'a library call exceeded its per-call alarm of {seconds} s (machine load); no verdict')
+    return r, err
 
 
 class LogCapture(logging.Handler):
@@ -26,9 +36,11 @@ class LogCapture(logging.Handler):
     def __init__(self):
         super().__init__(level=logging.WARNING)
         self.records = []
+        self.names = []
 
     def emit(self, record):
         self.records.append(record.getMessage())
+        self.names.append(record.name)
 
     def __enter__(self):
         self.lg = logging.getLogger('skfem')
@@ -583,7 +595,7 @@ def cell_coords(mesh, sc):
     return [[[int(x) for x in q[:, ed[j, k]]] for j in range(ed.shape[0])] for k in range(ed.shape[1])]
 
 
-def loc_info(mesh, elem, doflocs):
+def loc_info(mesh, elem, doflocs, force_fx=False):
     """Reference locations (rationals over L, an input), vertex coordinates (integers at the mesh scale) and the
     reported global locations: exact integers (times scale * L^deg) or fixed-point limbs (times scale)."""
     kind = kind_of(mesh)
@@ -595,13 +607,20 @@ def loc_info(mesh, elem, doflocs):
     if ref.ndim != 2:
         ref = ref.reshape((ref.shape[0], -1)) if ref.ndim > 2 else ref.reshape((-1, 1))
     mode, L = _common_den(ref)
+    if force_fx and mode == 'exact':
+        mode = 'fx'
     sc = find_scale(mesh.p)
     if mode == 'skip' or sc is None or sc > 64:
         return {'mode': 'none'}
     refl = []
     for row in ref:
         refl.append([] if not np.isfinite(row).all() else [int(round(float(x) * L)) for x in row])
-    pcell = cell_coords(mesh, sc)
+    try:
+        pcell = cell_coords(mesh, sc)
+    except Exception:           # per-cell geometry is read through mesh.dofs (internal): not readable -> not judged
+        return {'mode': 'none'}
+    if pcell is None and is_dg_mesh(mesh):
+        return {'mode': 'none'}
     pint = [] if pcell is not None else int_coords(mesh.p[:, :int(mesh.nvertices)], sc)   # (2nd order: extra nodes)
     glob = np.asarray(doflocs, dtype=float)
     out = []
@@ -612,8 +631,13 @@ def loc_info(mesh, elem, doflocs):
             out.append([])
         elif mode == 'exact':
             q = col * (sc * den)
-            if not np.array_equal(q, np.rint(q)) or (np.abs(q) >= 2**30).any():
+            if (np.abs(q) >= 2**30).any():
                 return {'mode': 'inexact'}
+            if not np.array_equal(q, np.rint(q)):
+                # not bit-exact: the property does not demand bit-exact arithmetic of the reference map (another
+                # summation order / library version may differ in the last place) -> judge the whole table in fixed
+                # point with the tolerance of the specification instead
+                return loc_info(mesh, elem, doflocs, force_fx=True)
             out.append([int(x) for x in np.rint(q)])
         else:
             limbs = [fx(float(x) * sc) for x in col]
@@ -634,12 +658,15 @@ def composite_decode(elem):
     the signatures of the components.  Not a composite: no components."""
     if not hasattr(elem, 'elems') or not hasattr(elem, '_deduce_bfun'):
         return {'sigs': [], 'dec': []}
-    nb = int(sum(int(x) for e in elem.elems for x in e._bfun_counts()))
-    dec = []
-    for i in range(nb):
-        n, ind = elem._deduce_bfun(i)
-        dec.append([int(n) + 1, int(ind) + 1])
-    return {'sigs': [signature(e) for e in elem.elems], 'dec': dec}
+    try:        # _deduce_bfun is private: if it is renamed / reshaped by a refactoring the decode is simply not observed
+        nb = int(sum(int(x) for e in elem.elems for x in e._bfun_counts()))
+        dec = []
+        for i in range(nb):
+            n, ind = elem._deduce_bfun(i)
+            dec.append([int(n) + 1, int(ind) + 1])
+        return {'sigs': [signature(e) for e in elem.elems], 'dec': dec}
+    except Exception:
+        return {'sigs': [], 'dec': []}
 
 
 def number_event(mesh, elem, dofs, doflocs=None, drift=0, with_locs=None, period=None, orient=None, warned=None):
@@ -658,8 +685,12 @@ def number_event(mesh, elem, dofs, doflocs=None, drift=0, with_locs=None, period
         ev['hasref'] = int(hasattr(elem, 'doflocs'))
     if period is not None:                      # periodic mesh: the identification is judged against the geometry
         sc = find_scale(mesh.p) or 1
-        pc = cell_coords(mesh, sc)
-        ev['per'] = {'pc': pc if pc is not None else [], 'period': [int(x) * int(sc) for x in period]}
+        try:
+            pc = cell_coords(mesh, sc)
+        except Exception:
+            pc = None
+        if pc is not None:          # geometry readable (mesh.dofs is internal): otherwise the identification is not judged
+            ev['per'] = {'pc': pc, 'period': [int(x) * int(sc) for x in period]}
     return ev
 
 
